@@ -30,6 +30,11 @@ import (
 type Constant struct {
 	linkOnce
 
+	// linkingValue is true while the value of the constant is being linked.
+	// A reference to the constant that is resolved during that time is a
+	// reference from the constant to itself.
+	linkingValue bool
+
 	Name  string
 	File  string
 	Doc   string
@@ -56,6 +61,9 @@ func compileConstant(file string, src *ast.Constant) (*Constant, error) {
 // Link resolves any references made by the constant.
 func (c *Constant) Link(scope Scope) (err error) {
 	if c.linked() {
+		if c.linkingValue {
+			return constantCycleError{Name: c.Name}
+		}
 		return nil
 	}
 
@@ -63,7 +71,10 @@ func (c *Constant) Link(scope Scope) (err error) {
 		return compileError{Target: c.Name, Reason: err}
 	}
 
-	if c.Value, err = c.Value.Link(scope, c.Type); err != nil {
+	c.linkingValue = true
+	c.Value, err = c.Value.Link(scope, c.Type)
+	c.linkingValue = false
+	if err != nil {
 		return compileError{Target: c.Name, Reason: err}
 	}
 
